@@ -122,6 +122,7 @@ func symbolizeMapping(source string, offset int64, syms func(string, string) ([]
 
 	lines := make(map[uint64]profile.Line)
 	functions := make(map[string]*profile.Function)
+	newFunctionID := profile.UnusedFunctionIDs(p)
 
 	b, err := syms(source, strings.Join(a, "+"))
 	if err != nil {
@@ -154,7 +155,7 @@ func symbolizeMapping(source string, offset int64, syms func(string, string) ([]
 			fn := functions[name]
 			if fn == nil {
 				fn = &profile.Function{
-					ID:         uint64(len(p.Function) + 1),
+					ID:         newFunctionID(),
 					Name:       name,
 					SystemName: name,
 				}
